@@ -36,6 +36,8 @@ pub struct Cfg {
     pub verify_modes: Vec<VerifyMode>,
     /// stop the history after the first ordered deviation
     pub stop_at_deviation: bool,
+    /// a quarter of the calls is made by a destructor while the thread unwinds from a caught user panic
+    pub unwinding_calls: bool,
 }
 
 impl Cfg {
@@ -59,6 +61,7 @@ impl Cfg {
             partial: None,
             verify_modes: vec![VerifyMode::Drop],
             stop_at_deviation: true,
+            unwinding_calls: true,
         }
     }
 }
@@ -284,6 +287,7 @@ pub fn build_history(cfg: &Cfg, scn: &Scenario, raw: &[RawCall]) -> Vec<Call> {
                     method: cfg.methods[pick(r.sel, cfg.methods.len())],
                     arg: r.arg,
                     via: r.via,
+                    unwinding: false,
                 })
                 .collect()
         }
@@ -293,6 +297,8 @@ pub fn build_history(cfg: &Cfg, scn: &Scenario, raw: &[RawCall]) -> Vec<Call> {
             method: cfg.methods[pick(r.sel, cfg.methods.len())],
             arg: r.arg,
             via: r.via % (scn.clones + 1),
+            // a quarter of the calls is made by a destructor during the unwinding of a caught user panic
+            unwinding: cfg.unwinding_calls && (r.via / 16) % 4 == 3,
         };
         let draw = r.guide as u16;
         let mut steered = false;
